@@ -315,6 +315,10 @@ func Guarded(guard func() bool, timeout time.Duration) YieldOpt {
 // NoFault says the policy must not be consulted for this yield.
 func NoFault() YieldOpt { return func(p *parked) { p.noFault = true } }
 
+// WithoutJob keys the yield by process only: used where the job path is assigned from
+// a Go map iteration in the code under test and is therefore not reproducible.
+func WithoutJob() YieldOpt { return func(p *parked) { p.op.Job = "" } }
+
 // WithSize records the byte size of the operation.
 func WithSize(n int) YieldOpt { return func(p *parked) { p.op.Size = n } }
 
@@ -366,6 +370,13 @@ func (s *Sim) yield(proc *Proc, job, kind, path string, opts []YieldOpt) Decisio
 	}
 	for _, o := range opts {
 		o(p)
+	}
+	if p.op.Job == "" && job != "" {
+		// re-key: the occurrence counter must follow the key actually used
+		s.occ[base]--
+		base = proc.Name + "||" + kind + "|" + path
+		p.op.Occ = s.occ[base]
+		s.occ[base]++
 	}
 	if p.hasDeadline {
 		p.deadline += s.Now
